@@ -41,6 +41,7 @@ func runCase(c chainsim.Case, rep chainsim.Reporter, scratch string) {
 	chainsim.ReportCommon(h, rep)
 	rep.Count("registry_state_checks", int64(rm.Checked))
 	rep.Count("node_record_updates_seen", int64(rm.NodeUpdates))
+	rep.Count("runtime_owner_index_checks", int64(rm.OwnerIndexChecks))
 	rep.Count("churp_stake_claims_implied_max", int64(rm.ChurpClaims))
 	rot := h.Gen.Stats["registry.RegisterNode/valid/ok"]
 	for _, p := range h.Panics {
